@@ -114,6 +114,12 @@ def run(ctx) -> None:
     # ---- R2 ---------------------------------------------------------------------
     check_async_map_order(ctx, "C10.R2")
     check_map_over_order_kept(ctx, "C10.R4")
+    # each entry is what a single run on that combination returns, under the mapping node's current output names: the
+    # collector hands every item's values to the node's own translator and builds no rename table of its own
+    from .c06 import check_every_item_translated, check_inversions_over_current_names
+
+    check_every_item_translated(ctx, "C10.R1")
+    check_inversions_over_current_names(ctx, "C10.R1")
     amap = [m for m in template_methods(db, "map") if m.is_async][0]
 
     # ---- R3 ---------------------------------------------------------------------
